@@ -297,3 +297,7 @@ Definition c01_check (c : e2e_case) : bool :=
   list_eqb out_eqb outs (ec_outs c) && list_eqb event_eqb (map obs_event log) (ec_log c)
   && list_eqb val_eqb (h_requests h) (ec_requests c)
   && list_eqb opt_val_eqb (map (obs_resp rs) (h_responses h)) (ec_responses c).
+
+(** ** registrations that change over the life of a server: the dispatcher keeps no memory of earlier
+    resolutions, so every call is one dispatch case under the registry in force at its moment *)
+Definition registry_check (cs : list dcase) : bool := forallb dispatch_check cs.
